@@ -615,9 +615,14 @@ func (n node) compact(lo uint64) int {
 	mk := n.maxKey()
 	var left, right int
 	for right = 0; right < N; right++ {
-		if n.val(right) < lo && n.key(right) < mk {
-			// Skip over this key. Don't copy it.
-			continue
+		if n.val(right) < lo {
+			if n.key(right) < mk {
+				// Skip over this key. Don't copy it.
+				continue
+			}
+			// The max key stays, because the parent routes by it, but its value
+			// goes: zero marks a placeholder that Get and IterateKV skip.
+			n.setAt(valOffset(right), 0)
 		}
 		// Valid data. Copy it from right to left. Advance left.
 		if left != right {
